@@ -224,6 +224,23 @@ def run_item(ctx, item):
             ctx.call(part.use_musical_beat, mb)
             mode = "musical" + ("-custom" if mb else "")
             get_all_maps(ctx, part)
+            if rng.random() < 0.35:
+                # a signature restated later (same numerator and denominator as the one in force) that is counted in another
+                # number of beats: the count belongs to the signature object, so the beat map changes slope there
+                used = {ts.start.t for ts in timemaps.objects_of(part, S.TimeSignature)}
+                cands = [x for x in range(d["first"] + 1, last) if x not in used]
+                if cands and d["ts"]:
+                    t_new = rng.choice(cands)
+                    in_force = [row for row in d["ts"] if row[0] <= t_new] or [d["ts"][0]]
+                    b_, bt_ = in_force[-1][1], in_force[-1][2]
+                    ts_new = S.TimeSignature(b_, bt_)
+                    part.add(ts_new, t_new)
+                    if rng.random() < 0.6:
+                        ts_new.musical_beats = rng.choice([x for x in (1, 2, 3, b_) if x != in_force[-1][3]] or [b_])
+                    mode += "-restated"
+                    ctx.extra["restated_signatures_counted_differently"] += 1
+                    get_all_maps(ctx, part)
+                    d = timemaps.describe(part)
             # histories: the beats per signature are changed again while the maps have been read before (no timeline edit between)
             for _h in range(rng.randint(0, 2)):
                 mb2 = {}
@@ -251,7 +268,7 @@ def run_item(ctx, item):
         rng = ctx.rng("edge", item[1])
         q = rng.choice([1, 2, 3, 6, 12, 480])
         part = S.Part("E", quarter_duration=q)
-        which = item[1] % 5
+        which = item[1] % 6
         if which == 0:                          # one-point part
             part.add(S.TimeSignature(4, 4), 0)
         elif which == 1:                        # no measure, no signature
@@ -265,6 +282,17 @@ def run_item(ctx, item):
             for i in range(rng.randint(1, 4)):
                 part.add(S.Measure(number=i + 1), i * bar, (i + 1) * bar)
             part.add(S.Note("C", 4, id="a", voice=1), 0, bar)
+        elif which == 5:                        # fine divisions: a pickup that is a few divisions short of a full bar
+            b, bt = rng.choice([(4, 4), (3, 4), (6, 8), (2, 2), (12, 8)])
+            q = rng.choice([960, 30000, 44100, 10 ** 6, 2 ** 20 * 15])
+            part = S.Part("E", quarter_duration=q)
+            bar = 4 * q * b // bt
+            short = rng.choice([1, 1, 2, 7])
+            part.add(S.TimeSignature(b, bt), 0)
+            part.add(S.Measure(number=1), 0, bar - short)
+            part.add(S.Measure(number=2), bar - short, 2 * bar - short)
+            part.add(S.Note("C", 4, id="a", voice=1), 0, bar - short)
+            part.add(S.Note("D", 4, id="b", voice=1), bar - short, 2 * bar - short)
         elif which == 4:                        # a FULL first bar made of stretches with different divisions
             from fractions import Fraction as F
             b, bt = rng.choice([(6, 8), (9, 8), (12, 8), (3, 4), (4, 4), (5, 8), (7, 8), (2, 4)])
@@ -299,11 +327,11 @@ def run_item(ctx, item):
             part.add(S.Measure(number=1), t0, t0 + 3 * q)
             part.add(S.Note("C", 4, id="a", voice=1), t0, t0 + 3 * q)
         get_all_maps(ctx, part)
-        if which in (2, 4):
+        if which in (2, 4, 5):
             ctx.call(part.use_musical_beat)
             get_all_maps(ctx, part)
         d = timemaps.describe(part)
-        ctx.case(["edge", which, d.get("q"), d.get("ts"), d.get("first_measures")], which in (2, 3, 4), cls=f"edge{which}")
+        ctx.case(["edge", which, d.get("q"), d.get("ts"), d.get("first_measures")], which in (2, 3, 4, 5), cls=f"edge{which}")
     elif kind == "fixture":
         import partitura
         sc = ctx.call(partitura.load_score, item[1])
